@@ -86,6 +86,13 @@ type Exec struct {
 	funcs    map[string]bool
 	clock    *Term
 	notes    map[string]interface{}
+	hashes   []hashRec
+	allMutexes []*mutexState
+}
+
+type hashRec struct {
+	s *StrVal
+	h *Term
 }
 
 // Thread is an engine thread (goroutine of the program under test).
@@ -661,7 +668,7 @@ type mutexState struct {
 	wwait   int
 }
 
-func mutexOf(c *Cell) *mutexState {
+func (ex *Exec) mutexFor(c *Cell) *mutexState {
 	if c == nil {
 		panic(&goPanic{msg: "invalid memory address or nil pointer dereference"})
 	}
@@ -670,12 +677,13 @@ func mutexOf(c *Cell) *mutexState {
 	}
 	m := &mutexState{readers: map[*Thread]int{}}
 	c.Tag = m
+	ex.allMutexes = append(ex.allMutexes, m)
 	return m
 }
 
 func (t *Thread) lock(c *Cell) {
 	t.visible()
-	m := mutexOf(c)
+	m := t.ex.mutexFor(c)
 	if m.writer == t {
 		t.ex.H.recordLockViolation(t.ex, "self-deadlock", "Lock of a mutex already held by the same goroutine")
 		t.ex.end("self-deadlock")
@@ -694,7 +702,7 @@ func (t *Thread) lock(c *Cell) {
 
 func (t *Thread) unlock(c *Cell) {
 	t.visible()
-	m := mutexOf(c)
+	m := t.ex.mutexFor(c)
 	if m.writer == nil {
 		panic(&goPanic{msg: "sync: unlock of unlocked mutex"})
 	}
@@ -703,7 +711,7 @@ func (t *Thread) unlock(c *Cell) {
 
 func (t *Thread) rlock(c *Cell) {
 	t.visible()
-	m := mutexOf(c)
+	m := t.ex.mutexFor(c)
 	if m.writer == t {
 		t.ex.H.recordLockViolation(t.ex, "self-deadlock", "RLock of an RWMutex write-locked by the same goroutine")
 		t.ex.end("self-deadlock")
@@ -716,7 +724,7 @@ func (t *Thread) rlock(c *Cell) {
 
 func (t *Thread) runlock(c *Cell) {
 	t.visible()
-	m := mutexOf(c)
+	m := t.ex.mutexFor(c)
 	// Go allows RUnlock from another goroutine; find any reader
 	if m.readers[t] > 0 {
 		m.readers[t]--
